@@ -462,10 +462,13 @@ class TLSRecordLayer(object):
         :rtype: iterable
         :returns: A generator; see above for details.
         """
-        try:
-            if self.closed:
-                raise TLSClosedConnectionError("attempt to write to closed connection")
+        # refusing to write on a closed connection is not a failure of the
+        # connection: it must not invalidate the session of an orderly closed
+        # connection
+        if self.closed:
+            raise TLSClosedConnectionError("attempt to write to closed connection")
 
+        try:
             applicationData = ApplicationData().create(bytearray(s))
             for result in self._sendMsg(applicationData, \
                                         randomizeFirstBlock=True):
